@@ -10,7 +10,7 @@ PROPS = {
     "C18": ("atom", ["le"], 150000, 4000000),
     "C16": ("atom", ["le", "be"], 80000, 2500000),
     "C17": ("atom", ["le", "be"], 80000, 2500000),
-    "C05": ("mem", ["le", "gnuld", "gccO2", "clangO3"], 12000, 300000),
+    "C05": ("mem+atom", ["le", "gnuld", "gccO2", "clangO3"], 15000, 360000),
     "C19": ("atom+mem", ["be"], 16000, 500000),
 }
 
@@ -147,7 +147,7 @@ RULES = {
     "C18": "seeded plans: 2-4 tasks x 2-6 ops of grow(d in {0,1,2,max,max+1})/size/touch on one shared memory (1..6 pages); schedules drawn by random walk or PCT with preemption at every instrumented load/store, atomic and lock operation; a run is non-trivial when >=1 context switch happened inside the workload; distinct = distinct interleaving hash (task, yield kind, object at every switch)",
     "C16": "seeded plans: 1-4 tasks x 3-15 atomic ops (all 63 flavours, two static offsets, mixed widths on 1-2 hot 8-byte words, operands with junk above the access width); LE build (builtins, with the store-buffer model for any access weaker than seq_cst) and forced-BE build (mutex based RMW); non-trivial = >=1 context switch; distinct = distinct interleaving hash",
     "C17": "seeded plans: 2-5 tasks x 1-6 ops of wait32/wait64/notify (static offset 0 and 24)/poke on 1-3 addresses (two colliding in the 1024-bucket map), timeouts {-1,0,us,ms,s}, spurious wake-ups, timer-vs-notify orderings, drain phase; non-trivial = >=1 context switch and >=1 condvar wait; distinct = distinct interleaving hash",
-    "C05": "seeded single-task histories of 20-120 ops: 14 loads x 9 stores (offsets 0/16/65535, unaligned, page-straddling, last byte), 18 composite functions doing store / store of another type or width / load at one address (aligned and unaligned), size, grow (0,1,2,to-max,max+1,0xFFFF,0x10000,0xFFFFFFFF) with injected realloc failures, copy/fill/init; byte-array model compared after every op; non-trivial = >=5 executed operations; distinct = distinct plan seed",
+    "C05": "fresh heap memory is pre-filled with 0xBE by the allocator (ASan malloc fill, unlimited size), so 'new pages zeroed' and 'initial memory zeroed' have to be established by the code under test; seeded single-task histories of 20-120 ops: 14 loads x 9 stores (offsets 0/16/65535, unaligned, page-straddling, last byte), 18 composite functions doing store / store of another type or width / load at one address (aligned and unaligned), size, grow (0,1,2,to-max,max+1,0xFFFF,0x10000,0xFFFFFFFF) with injected realloc failures, copy/fill/init; byte-array model compared after every op; non-trivial = >=5 executed operations; distinct = distinct plan seed",
     "C19": "C05-style histories and C16-style atomic histories executed on the build with WASM_ENDIAN forced to big-endian, against the byte-reversed reference model; non-trivial = >=5 executed operations (sequential histories) or >=1 context switch (atomic histories); distinct = distinct plan seed / interleaving hash",
 }
 
@@ -155,7 +155,7 @@ ASSUME = {
     "C18": ["shared memory of the generated 'atom' module (min 1, max 6 pages)", "sequentially consistent interleavings only (no weak-memory reorderings)", "race detector sees accesses of instrumented code (generated C, w2c2_base.h inlines, futex) to the descriptor fields data,size,pages,maxPages"],
     "C16": ["on the LE build each atomic builtin is one indivisible step as on hardware; the builtin's memory-order argument drives an x86-TSO store-buffer model: a store weaker than seq_cst is delayed in its task's FIFO buffer until the seeded scheduler drains it or the task executes a fence, read-modify-write, seq_cst store or lock operation, loads see the own buffer; load-load/load-store reordering and non-multi-copy-atomic machines are not modelled", "when a store was delayed the total order only has to respect program order (sequential consistency), otherwise real-time order too (linearizability); checked per 8-byte word and jointly over all 2-4 touched words", "histories <= 28 ops, linearizability search budget 1e6 states (over-budget histories are counted, never flagged)"],
     "C17": ["simulated pthread mutex/cond semantics follow POSIX (any waiter may be chosen by signal, spurious wake-ups allowed)", "CLOCK_REALTIME does not jump during a wait"],
-    "C05": ["only in-bounds accesses are generated (w2c2 does not bounds-check)", "one generated module ('mem': min 1, max 8 pages, 3 passive segments), built four ways: instrumented clang -O1 (arrays and gnu-ld data embedding), plain gcc -O2, plain clang -O3"],
+    "C05": ["only in-bounds accesses are generated (w2c2 does not bounds-check)", "two generated modules ('mem': non-shared memory of 1..8 pages with 3 passive segments; 'atom': shared memory of 1..6 pages whose maximum is reserved up front), the first built four ways: instrumented clang -O1 (arrays and gnu-ld data embedding), plain gcc -O2, plain clang -O3"],
     "C19": ["big-endian behaviour is exercised by forcing WASM_ENDIAN on a little-endian host", "the translator-on-BE-host clause is only sampled without schedules or faults (auxiliary): forced-BE reader vs. plain reader on byte-reversed float immediates, function definitions compared as a set"],
 }
 
@@ -172,6 +172,8 @@ def check(prop, tier, seed, replay=None):
     exes = {}
     for m in modules:
         for v in variants:
+            if prop == "C05" and m == "atom" and v in ("gnuld", "clangO3"):
+                continue        # the shared-memory module has no data segments; one optimising build of it is enough
             exes[(m, v)] = build(m, v)
     build_s = time.time() - t0
     rdir = os.path.join(SCRATCH, "verif-e1-%s-%07d" % (prop, os.getpid()))
